@@ -106,23 +106,18 @@ def check_c01(ctx):
     ctx.log("TLC MC_quick: %d generated / %d distinct, %.0fs" % (r["generated"], r["distinct"], r["wall_s"]))
     vlib.tlc(ctx, SPEC, "KubeInformer", "MC_noother.cfg", timeout=300, expect_violation=False)
     a = vlib.tlc(ctx, SPEC, "KubeInformer", "MC_asis.cfg", timeout=300, expect_violation="NoLossExceptSecondReader")
-    f3 = vlib.tlc(ctx, SPEC, "KubeInformer", "MC_f3.cfg", timeout=300, expect_violation="NoLoss")
-    ctx.log("TLC: pinned-commit model loses events (F1/F2) as expected; fixed model loses only through the second-reader reset (F3)")
+    vlib.tlc(ctx, SPEC, "KubeInformer", "MC_f3.cfg", timeout=300, expect_violation="NoLoss")
+    ctx.log("TLC: the pinned-commit model loses events (F1/F2); with those repaired it still loses through the reset by a second reader (F3); "
+            "the reference model (only the Synchronization read drops the saved events) loses nothing")
     binary = vlib.go_build(ctx, "ki")
     cases = []
-    # the shortest counterexample of the remaining (known) loss, straight from TLC's error trace
-    et = tlaparse.parse_error_trace(f3["out"])
-    if len(et) > 2:
-        cases.append({"eventTypes": ["A", "M", "D"], "steps": [s for _, s in et], "origin": "MC_f3 counterexample"})
-    else:
-        raise Infra("could not parse TLC's counterexample of MC_f3")
     num = ctx.pick(400, 4000)
     for consts in ({}, {"Others": "{}", "MaxOtherReads": "0"}):
         n = num if not consts else num // 4
         consts = dict(consts)
         if os.environ.get("VERIF_KI_ASIS"):
             # development aid: drive the pinned-commit code with the pinned-commit model
-            consts.update({"FixF1": "FALSE", "FixF2": "FALSE"})
+            consts.update({"FixF1": "FALSE", "FixF2": "FALSE", "FixF3": "FALSE"})
         for b in gen(ctx, n, 90, consts):
             cases.append({"eventTypes": event_types(b), "steps": b})
     stats = replay(ctx, binary, cases, ("C01/",))
@@ -166,7 +161,7 @@ def check_c01(ctx):
     ctx.cov["ns_monitor_replay"] = ns_stats
     ctx.sample({"schedule": [s["act"] for s in cases[0]["steps"][1:]]})
     ctx.sample({"schedule": [s["act"] for s in cases[-1]["steps"][1:25]]})
-    vlib.finish(ctx, rule="schedules = TLC simulation behaviours of spec/KubeInformer (4 configurations) + TLC's counterexample of the known second-reader loss; "
+    vlib.finish(ctx, rule="schedules = TLC simulation behaviours of spec/KubeInformer (4 configurations); "
                           "non-trivial = more than 8 steps; distinct = distinct action sequences")
 
 
